@@ -229,7 +229,36 @@ func genConfig(g *vh.Gen) {
 	}
 }
 
+// genReopenMany: the cap lowered so that MANY messages must go at the next delivery, spread over orders
+// of magnitude (1, 9, 20, 21, 50, 200, 600): the mailbox is filled without a cap (written straight into
+// the index, sd/wrap.go — reaching it through AddMessage is the same state), the store re-opened with a
+// small cap, then three deliveries, the mailbox listed after EACH of them (exactly the newest cap).
+func genReopenMany(g *vh.Gen) {
+	excess := []int{1, 9, 20, 21, 50, 200, 600}
+	if g.Tier == "thorough" {
+		excess = append(excess, 2, 19, 22, 33, 64, 100, 128, 1000, 2000)
+	}
+	for _, e := range excess {
+		c := 2 + g.Intn(3)
+		n := e + c - 1
+		date := 1600005000
+		var ops []string
+		for i := 0; i < n; i++ {
+			date++
+			ops = append(ops, "a0:"+vh.I(date)+":"+vh.I(100+10*(i%5)))
+		}
+		ops = append(ops, "o"+vh.I(c), "l0")
+		for k := 0; k < 3; k++ {
+			date += 5
+			ops = append(ops, "a0:"+vh.I(date)+":200", "l0", "g0:l", "g0:k"+vh.I(n+k))
+		}
+		ops = append(ops, "a1:"+vh.I(date+9)+":150", "v")
+		sd.EmitHistory(g, []string{"file"}, "direct@wrap"+vh.I(n), 0, 0, []string{"many-reopen", "other"}, joinOps(ops))
+	}
+}
+
 func genAll(g *vh.Gen) {
+	genReopenMany(g)
 	genConfig(g)
 	genMany(g)
 	gen(g)
